@@ -19,9 +19,10 @@ WRITE_ERRORS = (ValueError, TypeError, RuntimeError)
 class World:
     """Real objects addressed by the model's ids (allocated in creation order, never freed)."""
 
-    def __init__(self):
+    def __init__(self, geom="1d"):
         import nifty.cl as ift
         self.ift = ift
+        self.geom = geom          # "1d": arrays of shape (4,) / (2,2); "0d": 0-d arrays on the scalar domain
         self.arrs = [None]
         self.wraps = [None]
         self.fields = [None]      # (Field, snapshot)
@@ -30,6 +31,8 @@ class World:
 
     # -- helpers ---------------------------------------------------------------------------------------
     def dom(self, shape):
+        if shape == ():
+            return self.ift.DomainTuple.scalar_domain()
         return self.ift.DomainTuple.make(self.ift.RGSpace(shape))
 
     def new_arr(self, a):
@@ -77,13 +80,15 @@ class World:
         c = self.ctr
         if a == "NewArray":
             arr = (np.arange(4.) + 1 + c) * (1 + 0.5j)
+            if self.geom == "0d":
+                arr = np.array((1. + c) * (1 + 0.5j))
             return self.new_arr(arr), False
         if a == "ViewOfArr":
             p = self.arrs[x]
             if k == "slice":
-                v = p[::-1]
+                v = p[::-1] if p.ndim else p[...]
             elif k == "reshape":
-                v = p.reshape((2, 2)) if p.ndim == 1 else p.reshape(-1)
+                v = p.reshape(()) if p.ndim == 0 else (p.reshape((2, 2)) if p.ndim == 1 else p.reshape(-1))
             else:
                 v = p.real if np.iscomplexobj(p) else p.view()
             assert v is not p
@@ -113,7 +118,7 @@ class World:
             return self.new_field(f), False
         if a == "ConstructFromField":
             f = self.fields[x][0]
-            g = f.cast_domain(ift.DomainTuple.make(ift.UnstructuredDomain(f.shape)))
+            g = f.cast_domain(ift.DomainTuple.make(ift.UnstructuredDomain(f.shape))) if f.shape else f.cast_domain(ift.DomainTuple.make(()))
             return self.new_field(g), False
         if a == "ConstructViewField":
             f = self.fields[x][0]
@@ -140,7 +145,7 @@ class World:
         if a == "ViewOfWrap":
             w = self.wraps[x]
             if k == "getitem":
-                y = w[::-1]
+                y = w[::-1] if w.ndim else w[...]
             elif k == "view":
                 y = w.view()
             else:
@@ -206,7 +211,7 @@ class World:
                 (f.conjugate(), f.real, abs(f), f.astype(np.complex128))
             else:
                 (f.vdot(f), f.s_vdot(f), f.norm(), f.norm(1), f.outer(f))
-        except (TypeError, ValueError, AttributeError, NotImplementedError):
+        except (TypeError, ValueError, AttributeError, NotImplementedError, IndexError):
             pass   # an unsupported combination (e.g. clip of a complex field) is not a write
 
     def _use_op(self, x, k):
@@ -233,15 +238,17 @@ class World:
                 op = ift.makeOp(f)
                 fn = lambda op=op, probe=probe: np.concatenate([op(probe).raw.ravel(), op.adjoint_times(probe).raw.ravel()])
             first = np.array(fn(), copy=True)
-        except (TypeError, ValueError, AttributeError, NotImplementedError):
+        except (TypeError, ValueError, AttributeError, NotImplementedError, IndexError):
             return
         if len(self.ops) < 12:
             self.ops.append(("%s(field %d)" % (k, x), fn, first))
 
 
-def replay_hist(hist):
-    """returns (violation description or None, drift description or None)"""
-    w = World()
+def replay_hist(hist, geom="1d", aliases=False):
+    """returns (violation description or None, drift description or None).  aliases=True: behaviours of the model with writable
+    aliases made before the construction - a field may then change through such an alias (outside C07), but a write through a
+    handle the model says is protected (the source array object itself, everything obtained from the field) must still not land"""
+    w = World(geom)
     drift = None
     for i, e in enumerate(hist):
         try:
@@ -250,10 +257,13 @@ def replay_hist(hist):
             raise
         except Exception as ex:
             return None, "step %d %s(%s,%s) raised %r" % (i, e["a"], e["k"], e["x"], ex)
+        if landed and not e["landed"] and e["a"].startswith("Write"):
+            return "step %d %s(%s,%s): the write landed although the handle is write protected after the construction of a field" % (
+                i, e["a"], e["k"], e["x"]), drift
         if drift is None and (r != e["r"] or landed != e["landed"]):
             drift = "step %d %s(%s,%s): model (r=%s, landed=%s) real (r=%s, landed=%s)" % (
                 i, e["a"], e["k"], e["x"], e["r"], e["landed"], r, landed)
-        bad = w.changed()
+        bad = w.changed() if not aliases else None
         if bad:
             return "after step %d %s(%s,%s): field(s)/operator(s) %s differ from their construction snapshot" % (
                 i, e["a"], e["k"], e["x"], bad), drift
@@ -264,8 +274,8 @@ def replay_hist(hist):
 MAXA, MAXW, MAXF = 8, 8, 5
 
 
-def record_trace(rng, nsteps):
-    w = World()
+def record_trace(rng, nsteps, geom="1d", aliases=False):
+    w = World(geom)
     tr = []
     nbuf = 0
     for _ in range(nsteps):
@@ -278,11 +288,11 @@ def record_trace(rng, nsteps):
                 cands += [("ViewOfArr", k, a) for k in ("slice", "reshape", "real")]
             if nw < MAXW:
                 cands.append(("WrapArr", "AnyArray", a))
-            if nw < MAXW and nf < MAXF and not w.other_writable_alias(w.arrs[a]):
+            if nw < MAXW and nf < MAXF and (aliases or not w.other_writable_alias(w.arrs[a])):
                 cands += [("ConstructFromArr", k, a) for k in ("Field", "from_raw", "makeField", "mf_from_raw", "mf_from_dict")]
             cands += [("WriteArr", k, a) for k in ("setitem", "iadd", "ufunc_out", "copyto", "fill")]
         for x in range(1, nw + 1):
-            if nf < MAXF and not w.other_writable_alias(w.wraps[x].val):
+            if nf < MAXF and (aliases or not w.other_writable_alias(w.wraps[x].val)):
                 cands += [("ConstructFromWrap", k, x) for k in ("Field", "from_raw")]
             if nw < MAXW and na < MAXA:
                 cands += [("ViewOfWrap", k, x) for k in ("getitem", "view", "real")]
@@ -307,7 +317,7 @@ def record_trace(rng, nsteps):
         r, landed = w.do(a, k, x)
         if a in ("NewArray", "CopyField"):
             nbuf += 1
-        bad = w.changed()
+        bad = w.changed() if not aliases else []
         tr.append(dict(a=a, k=k, x=x, r=r, landed=bool(landed), changed=bool(bad), what=str(bad) if bad else ""))
         if bad:
             break
@@ -319,7 +329,7 @@ MaxWrap = %d
 MaxField = %d
 MaxOps = %d
 LockClearsNumpyFlag = %s
-AllowEarlierViews = FALSE
+AllowEarlierViews = %s
 KeepHist = "%s"
 EmitHist = %s
 """
@@ -330,56 +340,76 @@ def run(ctx):
     # ---- the model: all histories ------------------------------------------------------------------------
     mc = (3, 3, 2, 7) if q else (4, 4, 3, 9)
     ctx.constants.update(MaxArr=mc[0], MaxWrap=mc[1], MaxField=mc[2], MaxOps=mc[3])
-    ctx.tlc("FieldImmut", CFG % (mc + ("TRUE", "none", "FALSE")) +
+    ctx.tlc("FieldImmut", CFG % (mc + ("TRUE", "FALSE", "none", "FALSE")) +
             "SPECIFICATION Spec\nINVARIANT Immutable\nINVARIANT Protected\nINVARIANT TypeOK\nCHECK_DEADLOCK FALSE\n",
             label="rule, histories<=%d" % mc[3], coverage=not q, timeout=1700)
+    # with writable aliases made before the construction: the source handle and everything obtained from the field stay protected
+    ctx.tlc("FieldImmut", CFG % (mc[:3] + (mc[3] - 1, "TRUE", "TRUE", "none", "FALSE")) +
+            "SPECIFICATION Spec\nINVARIANT HandleProtected\nINVARIANT TypeOK\nCHECK_DEADLOCK FALSE\n", label="source handle protected (earlier aliases allowed)", timeout=1700)
+    r = ctx.tlc("FieldImmut", CFG % (3, 3, 2, 5, "FALSE", "TRUE", "none", "FALSE") + "SPECIFICATION Spec\nINVARIANT HandleProtected\nCHECK_DEADLOCK FALSE\n",
+                label="defect D1 on the model (handle)", expect_ok=False)
+    if r.violated != "HandleProtected":
+        raise tlcmod.MachineryError("the model of the defective lock() does not refute HandleProtected")
     # vacuity: writes do land somewhere, and writes on field buffers are attempted and rejected
     for inv in ("NoWriteLands", "NoWriteRejectedOnField"):
-        r = ctx.tlc("FieldImmut", CFG % (3, 3, 2, 5, "TRUE", "all", "FALSE") + "SPECIFICATION Spec\nINVARIANT %s\nCHECK_DEADLOCK FALSE\n" % inv,
+        r = ctx.tlc("FieldImmut", CFG % (3, 3, 2, 5, "TRUE", "FALSE", "all", "FALSE") + "SPECIFICATION Spec\nINVARIANT %s\nCHECK_DEADLOCK FALSE\n" % inv,
                     label="witness " + inv, expect_ok=False)
         if r.violated != inv:
             raise tlcmod.MachineryError("vacuity witness %s was not refuted" % inv)
     # the pinned behaviour (lock() not clearing the NumPy flag) is refuted on the model: the switch is live
-    r = ctx.tlc("FieldImmut", CFG % (3, 3, 2, 5, "FALSE", "none", "FALSE") + "SPECIFICATION Spec\nINVARIANT Immutable\nCHECK_DEADLOCK FALSE\n",
+    r = ctx.tlc("FieldImmut", CFG % (3, 3, 2, 5, "FALSE", "FALSE", "none", "FALSE") + "SPECIFICATION Spec\nINVARIANT Immutable\nCHECK_DEADLOCK FALSE\n",
                 label="defect D1 on the model", expect_ok=False)
     if r.violated != "Immutable":
         raise tlcmod.MachineryError("the model of the defective lock() is not refuted")
 
     # ---- spec -> code ----------------------------------------------------------------------------------
     depth = 4 if q else 5
-    e = ctx.tlc("FieldImmut", CFG % (3, 3, 2, depth, "TRUE", "all", "TRUE") + "SPECIFICATION Spec\nINVARIANT Emit\nCHECK_DEADLOCK FALSE\n",
+    e = ctx.tlc("FieldImmut", CFG % (3, 3, 2, depth, "TRUE", "FALSE", "all", "TRUE") + "SPECIFICATION Spec\nINVARIANT Emit\nCHECK_DEADLOCK FALSE\n",
                 label="emit all histories of length %d" % depth, workers=1, timeout=1700)
     hists = [d["hist"] for d in e.emitted]
     nsim = 1500 if q else 12000
-    s = ctx.tlc("FieldImmut", CFG % (5, 5, 3, 10, "TRUE", "all", "TRUE") + "SPECIFICATION Spec\nINVARIANT Emit\nCHECK_DEADLOCK FALSE\n",
+    s = ctx.tlc("FieldImmut", CFG % (5, 5, 3, 10, "TRUE", "FALSE", "all", "TRUE") + "SPECIFICATION Spec\nINVARIANT Emit\nCHECK_DEADLOCK FALSE\n",
                 label="simulate %d histories of length 10" % nsim, workers=1, simulate=nsim, depth=11, seed=ctx.seed + 1, timeout=1700)
     hists += [d["hist"] for d in s.emitted]
     if len(hists) < 100:
         raise tlcmod.MachineryError("too few behaviours emitted: %d" % len(hists))
+    sa = ctx.tlc("FieldImmut", CFG % (5, 5, 3, 10, "TRUE", "TRUE", "all", "TRUE") + "SPECIFICATION Spec\nINVARIANT Emit\nCHECK_DEADLOCK FALSE\n",
+                 label="simulate %d histories with earlier aliases" % (nsim // 2), workers=1, simulate=nsim // 2, depth=11, seed=ctx.seed + 2, timeout=1700)
+    ahists = [d["hist"] for d in sa.emitted]
     nviol = 0
-    for h in hists:
-        viol, drift = replay_hist(h)
-        key = tuple((x["a"], x["k"], x["x"]) for x in h)
+    jobs = [(h, g, False) for h in hists for g in ("1d", "0d")] + [(h, g, True) for h in ahists for g in ("1d", "0d")]
+    for h, geom, al in jobs:
+        viol, drift = replay_hist(h, geom, al)
+        key = (geom, al) + tuple((x["a"], x["k"], x["x"]) for x in h)
         ctx.case(key)
         if drift:
             ctx.add_drift(drift)
         if viol:
             nviol += 1
             last = viol.split(":")[0]
-            ctx.violation(dict(kind="replay", action=[x["a"] + ":" + x["k"] for x in h][-1]), viol, replay=dict(hist=h))
-    ctx.traces += len(hists)
+            ctx.violation(dict(kind="replay", action=[x["a"] + ":" + x["k"] for x in h][-1]), "[%s%s] %s" % (geom, ", earlier aliases" if al else "", viol),
+                          replay=dict(hist=h, geom=geom, aliases=al))
+    ctx.traces += len(jobs)
     ctx.sample(dict(direction="spec->code", behaviour=[(x["a"], x["k"], x["x"]) for x in hists[len(hists) // 2]]))
     ctx.notes["replayed_behaviours"] = len(hists)
 
     # ---- code -> spec ------------------------------------------------------------------------------------
     rng = random.Random(ctx.seed * 7919 + 13)
     ntr = 400 if q else 4000
-    traces = [record_trace(rng, rng.randint(6, 16)) for _ in range(ntr)]
+    for aliases in (False, True):
+        _recorded(ctx, rng, ntr if not aliases else ntr // 2, aliases)
+    ctx.assume("an alias of the source array that is writable and was created BEFORE the field is constructed is outside the "
+               "quantifier of C07 (the library cannot revoke it); re-enabling ndarray.flags.writeable by hand is not a write through a handle")
+    ctx.exhaustive = False
+
+
+def _recorded(ctx, rng, ntr, aliases):
+    traces = [record_trace(rng, rng.randint(6, 16), "0d" if i % 3 == 2 else "1d", aliases) for i in range(ntr)]
     slim = [[{k: v for k, v in ev.items() if k != "what"} for ev in t] for t in traces]
     tv = tracemod.validate(ctx, "FieldImmutTrace",
-                           slim, cfg=CFG % (MAXA, MAXW, MAXF, 100, "TRUE", "last", "FALSE") +
-                           "SPECIFICATION TSpec\nCONSTRAINT Progress\nPOSTCONDITION Report\nINVARIANT Immutable\n",
-                           label="%d recorded traces" % ntr)
+                           slim, cfg=CFG % (MAXA, MAXW, MAXF, 100, "TRUE", "TRUE" if aliases else "FALSE", "last", "FALSE") +
+                           "SPECIFICATION TSpec\nCONSTRAINT Progress\nPOSTCONDITION Report\nINVARIANT %s\n" % ("HandleProtected" if aliases else "Immutable"),
+                           label="%d recorded traces%s" % (ntr, " (earlier aliases)" if aliases else ""))
     if tv.tlc.violated:
         ctx.violation(dict(kind="trace-invariant", invariant=tv.tlc.violated), "invariant %s violated along a recorded trace" % tv.tlc.violated,
                       replay=dict(trace=tv.tlc.error_trace))
@@ -394,10 +424,7 @@ def run(ctx):
     for t in traces:
         ctx.case(tuple((x["a"], x["k"], x["x"]) for x in t))
     ctx.sample(dict(direction="code->spec", trace=slim[0][:8]))
-    ctx.notes["recorded_traces"] = dict(n=ntr, events=sum(len(t) for t in traces), accepted=tv.accepted)
-    ctx.assume("an alias of the source array that is writable and was created BEFORE the field is constructed is outside the "
-               "quantifier of C07 (the library cannot revoke it); re-enabling ndarray.flags.writeable by hand is not a write through a handle")
-    ctx.exhaustive = False
+    ctx.notes["recorded_traces_aliases" if aliases else "recorded_traces"] = dict(n=ntr, events=sum(len(t) for t in traces), accepted=tv.accepted)
 
 
 def selftest(ctx):
@@ -409,7 +436,7 @@ def selftest(ctx):
     j = next(j for j, e in enumerate(slim[tgt]) if e["a"].startswith("Write"))
     slim[tgt][j]["landed"] = not slim[tgt][j]["landed"]
     slim[(tgt + 1) % 20][0]["changed"] = True
-    tv = tracemod.validate(ctx, "FieldImmutTrace", slim, cfg=CFG % (MAXA, MAXW, MAXF, 100, "TRUE", "last", "FALSE") +
+    tv = tracemod.validate(ctx, "FieldImmutTrace", slim, cfg=CFG % (MAXA, MAXW, MAXF, 100, "TRUE", "FALSE", "last", "FALSE") +
                            "SPECIFICATION TSpec\nCONSTRAINT Progress\nPOSTCONDITION Report\n", label="selftest")
     ok = tv.rejected == [tgt] and tv.maxl[tgt] == j and [(t, l) for t, l, _ in tv.propfail] == [((tgt + 1) % 20, 1)]
     return dict(ok=ok, mutation="flipped one write outcome; set one changed flag", rejected=tv.rejected, propfail=tv.propfail[:3])
@@ -418,7 +445,7 @@ def selftest(ctx):
 def replay(ctx, doc):
     case = doc.get("case", {})
     if "hist" in case:
-        viol, drift = replay_hist(case["hist"])
+        viol, drift = replay_hist(case["hist"], case.get("geom", "1d"), case.get("aliases", False))
         ctx.case("replay")
         ctx.case("replay-2")
         ctx.sample(dict(replayed=case["hist"]))
@@ -426,7 +453,10 @@ def replay(ctx, doc):
             ctx.violation(doc.get("key", dict(kind="replay")), viol, replay=case)
     elif "trace" in case and isinstance(case["trace"], list):
         h = [dict(a=e["a"], k=e["k"], x=e["x"], r=e["r"], landed=e["landed"]) for e in case["trace"]]
-        viol, drift = replay_hist(h)
+        viol, drift = (None, None)
+        for g in ("1d", "0d"):
+            for al in (False, True):
+                viol = viol or replay_hist(h, g, al)[0]
         ctx.case("replay")
         ctx.case("replay-2")
         ctx.sample(dict(replayed=h))
